@@ -14,9 +14,9 @@ Fixpoint stage_text_from (z : zone) (acc : list row) (rows : list text_row) : re
   | [] => Ok acc
   | (s, v) :: rest =>
       match stamp z s with
-      | Stamp e => bind (ins_row (e, v) acc) (fun acc' => stage_text_from z acc' rest)
+      | Stamp e | Shifted e => bind (ins_row (e, v) acc) (fun acc' => stage_text_from z acc' rest)
       | Refuse => Err EValue
-      | Skipped => Err EOther   (* a skipped local time: outside the model *)
+      | Skipped => Err EOther   (* outside the model *)
       end
   end.
 
@@ -27,8 +27,8 @@ Fixpoint stamp_all (z : zone) (rows : list text_row) : option (list row) :=
   match rows with
   | [] => Some []
   | (s, v) :: rest =>
-      match stamp z s, stamp_all z rest with
-      | Stamp e, Some l => Some ((e, v) :: l)
+      match stamp_epoch (stamp z s), stamp_all z rest with
+      | Some e, Some l => Some ((e, v) :: l)
       | _, _ => None
       end
   end.
